@@ -8,6 +8,7 @@ import (
 
 	sentinel "github.com/alibaba/sentinel-golang/api"
 	"github.com/alibaba/sentinel-golang/core/base"
+	"github.com/alibaba/sentinel-golang/core/flow"
 	"github.com/alibaba/sentinel-golang/core/system"
 	"github.com/alibaba/sentinel-golang/core/system_metric"
 	"pgregory.net/rapid"
@@ -62,6 +63,16 @@ func TestSystemPredicate(t *testing.T) {
 			rules = append(rules, drawRule(i))
 		}
 		load("load")
+		if rapid.IntRange(0, 2).Draw(t, "pacingFlowRule") == 0 {
+			// another module on the traffic's resources: pacing rules that queue requests (never reject: the limit is an hour)
+			pt := float64(rapid.SampledFrom([]int{3, 5, 20, 100}).Draw(t, "paceT")) // (never below the largest batch: a pacing rule rejects a batch above its threshold)
+			if _, err := flow.LoadRules([]*flow.Rule{{Resource: "a", ControlBehavior: flow.Throttling, Threshold: pt, MaxQueueingTimeMs: 3600000}, {Resource: "b", ControlBehavior: flow.Throttling, Threshold: pt, MaxQueueingTimeMs: 3600000}}); err != nil {
+				t.Fatalf("flow rules: %v", err)
+			}
+			hx.C.Advance = true
+			defer func() { hx.C.Advance = false }()
+			c.Class("pacing-flow-rules-on-the-resources")
+		}
 		reloaded := false
 		sysLoad, cpu := -1.0, -1.0
 		var evs model.Events // inbound aggregate only, built by the reference
@@ -186,9 +197,16 @@ func TestSystemPredicate(t *testing.T) {
 					eo = append(eo, sentinel.WithBatchCount(batch))
 				}
 				e, blk := sentinel.Entry(res, eo...)
-				c.Op("t=%d Entry(%s inbound=%v batch=%d) qps=%v conc=%d avgRt=%v load=%v cpu=%v overCap=%v -> blocked=%v", now, res, inbound, batch, qps, conc, avg, sysLoad, cpu, overCapacity, blk != nil)
+				// (the system rules are consulted first, at the instant of the call; a pacing flow rule on the resource may then make
+				// the single caller sleep inside Entry: the pass is recorded when the wait is over, the response time runs from the call)
+				called := now
+				now = hx.C.Ms()
+				if now != called {
+					c.Class("inbound-request-queued-by-a-pacing-flow-rule")
+				}
+				c.Op("t=%d Entry(%s inbound=%v batch=%d) qps=%v conc=%d avgRt=%v load=%v cpu=%v overCap=%v -> blocked=%v (waited %d ms)", called, res, inbound, batch, qps, conc, avg, sysLoad, cpu, overCapacity, blk != nil, now-called)
 				if e != nil {
-					lives = append(lives, &lv{next, e, now, inbound, batch})
+					lives = append(lives, &lv{next, e, called, inbound, batch})
 					next++
 				}
 				if !inbound {
